@@ -6,6 +6,7 @@ use ff::Field;
 use mzkh::Ctx;
 use serde_json::json;
 
+mod ir;
 mod keys;
 mod rel;
 mod vals;
@@ -13,6 +14,11 @@ mod ver;
 
 use rel::{MixRelation, Path, Step};
 use vals::*;
+
+/// Sizes: `quick` and `search` use the small sweeps, `thorough` the wide ones.
+fn small(ctx: &Ctx) -> bool {
+    !ctx.thorough()
+}
 
 /// `enc <token>` : the real off-circuit encoder on one value.
 fn enc_case(ctx: &mut Ctx, it: &Item, nontrivial: bool) {
@@ -24,13 +30,60 @@ fn enc_case(ctx: &mut Ctx, it: &Item, nontrivial: bool) {
     ctx.case(&format!("enc:{}", it.tag().split(':').next().unwrap()), nontrivial, &line, &ans);
 }
 
+/// The constants the model hard-codes or reads from the generated table, as the running code
+/// has them: field moduli and limb parameters.
+fn run_consts(ctx: &mut Ctx) {
+    use midnight_circuits::field::foreign::params::{FieldEmulationParams, MultiEmulationParams as MEP};
+    use midnight_curves::{
+        curve25519,
+        k256::{Fp as SecpFp, Fq as SecpFq},
+        Fp as BlsFp, Fr as JFr,
+    };
+    ctx.case("const", true, "mod native", &mzkh::big_hex(&modulus::<F>()));
+    ctx.case("const", true, "mod jubjub_scalar", &mzkh::big_hex(&modulus::<JFr>()));
+    ctx.case("const", true, "mod secp_base", &mzkh::big_hex(&modulus::<SecpFp>()));
+    ctx.case("const", true, "mod secp_scalar", &mzkh::big_hex(&modulus::<SecpFq>()));
+    ctx.case("const", true, "mod bls_base", &mzkh::big_hex(&modulus::<BlsFp>()));
+    ctx.case("const", true, "mod c25519_base", &mzkh::big_hex(&modulus::<curve25519::Fp>()));
+    ctx.case("const", true, "mod c25519_scalar", &mzkh::big_hex(&modulus::<curve25519::Scalar>()));
+    macro_rules! params {
+        ($name:expr, $k:ty) => {
+            ctx.case(
+                "const",
+                true,
+                &format!("params {}", $name),
+                &format!("{} {}", <MEP as FieldEmulationParams<F, $k>>::LOG2_BASE, <MEP as FieldEmulationParams<F, $k>>::NB_LIMBS),
+            );
+        };
+    }
+    params!("secp_base", SecpFp);
+    params!("secp_scalar", SecpFq);
+    params!("bls_base", BlsFp);
+    params!("c25519_base", curve25519::Fp);
+    params!("c25519_scalar", curve25519::Scalar);
+}
+
+/// Off-circuit encoder of an emulated field that no zk_stdlib chip instantiates.
+fn enc_ff<K: midnight_circuits::CircuitField>(ctx: &mut Ctx, name: &str, x: K)
+where
+    midnight_circuits::field::foreign::params::MultiEmulationParams: midnight_circuits::field::foreign::params::FieldEmulationParams<F, K>,
+{
+    use midnight_circuits::{field::foreign::params::MultiEmulationParams as MEP, types::{AssignedField, Instantiable}};
+    let line = format!("enc ff:{name}={}", hex(&x));
+    let ans = match mzkh::catch(|| <AssignedField<F, K, MEP> as Instantiable<F>>::as_public_input(&x)) {
+        Ok(v) => fq_list(&v),
+        Err(_) => "panic".to_string(),
+    };
+    ctx.case("enc:ff", true, &line, &ans);
+}
+
 fn run_enc(ctx: &mut Ctx) {
     use midnight_curves::{
         k256::{Fp as SecpFp, Fq as SecpFq},
         Fp as BlsFp,
     };
     let mut rng = ctx.rng("enc");
-    let nrand = if ctx.quick() { 8 } else { 64 };
+    let nrand = if small(ctx) { 8 } else { 64 };
     for b in [false, true] {
         enc_case(ctx, &Item::Bit(b), true);
     }
@@ -49,6 +102,12 @@ fn run_enc(ctx: &mut Ctx) {
     for x in field_boundaries::<BlsFp>(56, 7).into_iter().chain((0..nrand).map(|_| rand_field(&mut rng))) {
         enc_case(ctx, &Item::BlsBase(x), true);
     }
+    for x in field_boundaries::<midnight_curves::curve25519::Fp>(64, 4).into_iter().chain((0..nrand).map(|_| rand_field(&mut rng))) {
+        enc_ff(ctx, "c25519_base", x);
+    }
+    for x in field_boundaries::<midnight_curves::curve25519::Scalar>(51, 5).into_iter().chain((0..nrand).map(|_| rand_field(&mut rng))) {
+        enc_ff(ctx, "c25519_scalar", x);
+    }
     for p in secp_points(&mut rng, nrand) {
         enc_case(ctx, &Item::SecpPoint(p), true);
     }
@@ -62,7 +121,7 @@ fn run_enc(ctx: &mut Ctx) {
         enc_case(ctx, &Item::JScalar(s), true);
     }
     // BigUint of every limb count 0..=5 (and more in thorough), bound at / around limb borders
-    let nbs: Vec<u32> = if ctx.quick() {
+    let nbs: Vec<u32> = if small(ctx) {
         vec![0, 1, 2, 8, 64, 95, 96, 97, 128, 191, 192, 193, 288, 289, 384, 385, 480, 1024]
     } else {
         (0..=200).chain([287, 288, 289, 383, 384, 385, 479, 480, 481, 1023, 1024, 1025, 2048, 4096]).collect()
@@ -266,7 +325,8 @@ fn single(ctx: &mut Ctx, kc: &mut KCache, path: Path, it: Item) {
 fn run_expose_single(ctx: &mut Ctx) {
     let mut kc = KCache(Default::default());
     let mut rng = ctx.rng("expose1");
-    let q = ctx.quick();
+    let q = small(ctx);
+    let search = ctx.search();
     let basic = [Path::Constrain, Path::Assign, Path::Fixed];
     for p in basic.iter().chain([Path::Committed].iter()) {
         for b in [false, true] {
@@ -289,7 +349,7 @@ fn run_expose_single(ctx: &mut Ctx) {
     let nr = if q { 1 } else { 6 };
     let ffpaths = [Path::Constrain, Path::Assign, Path::Fixed, Path::Derived(0), Path::Derived(1)];
     for p in ffpaths {
-        let lim = |n: usize| if q && p != Path::Constrain && p != Path::Assign { n.min(6) } else { n };
+        let lim = |n: usize| if q && !search && p != Path::Constrain && p != Path::Assign { n.min(6) } else { n };
         let v = field_boundaries::<SecpFp>(64, 4);
         for x in v.iter().take(lim(v.len())).cloned().chain((0..nr).map(|_| rand_field(&mut rng))) {
             single(ctx, &mut kc, p, Item::SecpBase(x));
@@ -392,10 +452,10 @@ fn run_expose_mixed(ctx: &mut Ctx) {
     use rand::Rng;
     let mut kc = KCache(Default::default());
     let mut rng = ctx.rng("mixed");
-    let sizes: Vec<usize> = if ctx.quick() { vec![0, 1, 2, 3, 5, 9, 17, 40] } else { (0..=40).collect() };
-    let max_edits = if ctx.quick() { 6 } else { 16 };
+    let sizes: Vec<usize> = if small(ctx) { vec![0, 1, 2, 3, 5, 9, 17, 40] } else { (0..=40).collect() };
+    let max_edits = if small(ctx) { 6 } else { 16 };
     for n in sizes {
-        let reps = if ctx.quick() { 1 } else { 2 };
+        let reps = if small(ctx) { 1 } else { 2 };
         for _ in 0..reps {
             // small relations use every chip; the large ones mostly native types (cost)
             let chips = if n <= 9 { (true, true, true) } else { (rng.gen_bool(0.7), rng.gen_bool(0.3), rng.gen_bool(0.2)) };
@@ -414,9 +474,9 @@ fn run_keys(ctx: &mut Ctx) {
     use rand::Rng;
     let mut srs = keys::Srs::new();
     let mut rng = ctx.rng("keys");
-    let sizes: Vec<usize> = if ctx.quick() { vec![0, 1, 2, 6, 13, 40] } else { (0..=40).collect() };
+    let sizes: Vec<usize> = if small(ctx) { vec![0, 1, 2, 6, 13, 40] } else { (0..=40).collect() };
     for (idx, n) in sizes.into_iter().enumerate() {
-        let with_proof = if ctx.quick() { n <= 2 || n == 13 } else { n % 3 != 2 };
+        let with_proof = if small(ctx) { n <= 2 || n == 13 } else { n % 3 != 2 };
         let chips = if n <= 6 && !with_proof {
             (true, true, true)
         } else {
@@ -594,7 +654,7 @@ fn ver_case(ctx: &mut Ctx, kind: &str, line_head: &str, body: &str, circuit: ver
 fn run_verifier(ctx: &mut Ctx) {
     use rand::Rng;
     let mut rng = ctx.rng("verifier");
-    let quick = ctx.quick();
+    let quick = small(ctx);
     // --- off-circuit encoders of MSMs / accumulators on many shapes
     let shapes: Vec<(usize, usize)> = if quick { vec![(0, 0), (1, 0), (0, 1), (1, 1), (2, 3), (3, 2)] } else { (0..=4).flat_map(|a| (0..=4).map(move |b| (a, b))).collect() };
     for &(nb, nf) in &shapes {
@@ -655,12 +715,151 @@ fn run_verifier(ctx: &mut Ctx) {
     let _ = rng.gen::<u8>();
 }
 
+/// IR value types through ZKIR programs.
+fn run_ir(ctx: &mut Ctx) {
+    use midnight_zkir::{IrType, IrValue};
+    let quick = small(ctx);
+    let mut rng = ctx.rng("ir");
+    // --- the IR-level formatter on single values (every IR type, boundary values)
+    let mut singles: Vec<(IrValue, IrType)> = vec![
+        (IrValue::Bool(false), IrType::Bool),
+        (IrValue::Bool(true), IrType::Bool),
+        (IrValue::Bytes(vec![]), IrType::Bytes(0)),
+        (IrValue::Bytes(vec![0]), IrType::Bytes(1)),
+        (IrValue::Bytes(vec![255, 0, 1, 128]), IrType::Bytes(4)),
+        (IrValue::Bytes((0..=255u8).collect()), IrType::Bytes(256)),
+        (IrValue::Native(F::ZERO), IrType::Native),
+        (IrValue::Native(-F::ONE), IrType::Native),
+    ];
+    for nb in [1u32, 8, 96, 97, 192, 193, 1024] {
+        for v in bits_boundaries(nb).into_iter().chain(std::iter::once(rand_big(&mut rng, nb))) {
+            singles.push((IrValue::BigUint(v), IrType::BigUint(nb)));
+        }
+    }
+    for p in jpoints(&mut rng, 2) {
+        singles.push((IrValue::JubjubPoint(p), IrType::JubjubPoint));
+    }
+    for s in jscalars(&mut rng, 2) {
+        singles.push((IrValue::JubjubScalar(s), IrType::JubjubScalar));
+    }
+    for (v, t) in &singles {
+        let line = format!("enc {}", ir::ir_token(v, t));
+        let ans = match mzkh::catch(|| ir::enc_ir(v, *t)) {
+            Ok(Ok(e)) => fq_list(&e),
+            Ok(Err(e)) => format!("error {e}"),
+            Err(_) => "panic".into(),
+        };
+        ctx.case("enc:ir", true, &line, &ans);
+    }
+    // a value that is not of the declared type must be refused by the IR formatter
+    for (v, t) in [
+        (IrValue::BigUint(num_bigint::BigUint::from(256u32)), IrType::BigUint(8)),
+        (IrValue::Bytes(vec![1, 2]), IrType::Bytes(3)),
+        (IrValue::Bool(true), IrType::Native),
+    ] {
+        if let Ok(Ok(e)) = mzkh::catch(|| ir::enc_ir(&v, t)) {
+            ctx.oracle_fail(&format!("ir:ill-typed:{t:?}"), "the IR formatter encodes a value that is not of the declared type", json!({"value": format!("{v:?}"), "type": format!("{t:?}"), "encoding": fq_list(&e)}));
+        }
+        ctx.count("ir-ill-typed-refused");
+    }
+    // --- programs
+    for c in ir::cases(quick) {
+        let key = format!("ir:{}", c.name);
+        let (inst, pi) = match mzkh::catch(|| ir::public_inputs(&c.prog, &c.wit)) {
+            Ok(Ok(x)) => x,
+            Ok(Err(e)) | Err(e) => {
+                ctx.oracle_fail(&key, "public_inputs/format_instance fails on an honest ZKIR program", json!({"case": c.name, "error": e}));
+                continue;
+            }
+        };
+        if inst.len() != c.paths.len() {
+            ctx.oracle_fail(&key, "unexpected number of published values", json!({"case": c.name, "published": inst.len()}));
+            continue;
+        }
+        let body = if inst.is_empty() {
+            "-".to_string()
+        } else {
+            inst.iter().zip(&c.paths).map(|((v, t), p)| format!("{p}:{}", ir::ir_token(v, t))).collect::<Vec<_>>().join(" ")
+        };
+        let total = pi.len();
+        let max_edits = if quick { 6 } else { 16 };
+        let positions: Vec<usize> = if total <= max_edits {
+            (0..total).collect()
+        } else {
+            use rand::Rng;
+            let mut v = vec![0, total - 1];
+            while v.len() < max_edits {
+                let i = rng.gen_range(0..total);
+                if !v.contains(&i) {
+                    v.push(i);
+                }
+            }
+            v.sort();
+            v
+        };
+        let line = if total <= max_edits { format!("expose {body}") } else { format!("exposeat {} {body}", mzkh::join(&positions)) };
+        let mut k = mzkh::catch(|| ir::min_k(&c.prog)).ok().and_then(|r| r.ok()).unwrap_or(9);
+        let obs = loop {
+            let r = mzkh::catch(|| ir::observe(&c.prog, &c.wit, &inst, &pi, k));
+            let out_of_rows = match &r {
+                Ok(Err(e)) => e.contains("NotEnoughRows"),
+                Err(p) => p.contains("usable_rows") || p.contains("minimum_rows"),
+                _ => false,
+            };
+            if out_of_rows && k < 15 {
+                k += 1;
+                continue;
+            }
+            break r;
+        };
+        let (bound, sat) = match obs {
+            Ok(Ok(x)) => x,
+            Ok(Err(e)) | Err(e) => {
+                ctx.case("expose-ir", true, &line, "error");
+                ctx.oracle_fail(&key, "compiling/proving an honest ZKIR program fails", json!({"case": c.name, "error": e}));
+                continue;
+            }
+        };
+        let mut rejected = 0;
+        let mut accepted = vec![];
+        if sat {
+            for &i in &positions {
+                let mut p2 = pi.clone();
+                p2[i] += F::ONE;
+                match mzkh::catch(|| ir::verdict(&c.prog, &c.wit, &inst, &p2, k)) {
+                    Ok(Ok(false)) => rejected += 1,
+                    _ => accepted.push(i),
+                }
+            }
+            ctx.count_n("edits_tried", positions.len() as u64);
+        }
+        let ans = format!("plain={} com=0:- sat={} rej={}/{}", fmt_bound(&bound), sat as u8, rejected, positions.len());
+        ctx.case("expose-ir", true, &line, &ans);
+        ctx.count(&format!("ir-case:{}", c.name.split('-').next().unwrap_or("")));
+        let exact = bound.rows.len() == pi.len() && bound.rows.iter().enumerate().all(|(i, r)| i == *r) && bound.cells.iter().zip(&pi).all(|(c, e)| c.as_ref() == Some(e));
+        if !sat {
+            ctx.oracle_fail(&key, "the compiled ZKIR circuit rejects the public inputs computed off-circuit", json!({"case": c.name, "line": line, "bound": ans}));
+        } else if !accepted.is_empty() {
+            ctx.oracle_fail(&key, "the compiled ZKIR circuit accepts an edited public-input vector", json!({"case": c.name, "positions": accepted}));
+        } else if !exact {
+            let known = c.known_jscalar && bound.rows.len() > pi.len();
+            ctx.oracle_fail(
+                if known { KEY_JSCALAR } else { &key },
+                "the instance rows bound by the circuit are not exactly the positions of the off-circuit encoding",
+                json!({"case": c.name, "line": line, "bound": ans, "plain": fq_list(&pi)}),
+            );
+        }
+    }
+}
+
 fn main() {
     let mut ctx = Ctx::from_args("C08");
+    run_consts(&mut ctx);
     run_enc(&mut ctx);
     run_expose_single(&mut ctx);
     run_expose_mixed(&mut ctx);
     run_keys(&mut ctx);
     run_verifier(&mut ctx);
+    run_ir(&mut ctx);
     ctx.finish();
 }
